@@ -131,7 +131,7 @@ pub fn run(ctx: &Ctx) -> &'static str {
     ctx.explore(
         "histories",
         "histories of selects, state changes and guard on/off toggles over 1..4 real connections, every threshold setting, both modes, with a guard-always-off twin; non-trivial = the history latched or pulled >= 1 link before a compared select",
-        ctx.tier.pick(20_000, 600_000),
+        ctx.tier.pick(60_000, 800_000),
         || strategy(mo, None),
         |_| check,
     );
